@@ -57,7 +57,11 @@ fn generate(cli: &Cli) -> Vec<Case> {
                 for cookie_kind in 0..6 {
                     for auth_ok in [true, false] {
                         for enc in enc_variants(&mut rng) {
-                            let claimed = mk::ident(&mut rng, "claimed");
+                            let mut claimed = mk::ident(&mut rng, "claimed");
+                            if rng.chance(1, 3) {
+                                // control characters, separators, non-ASCII: the name is the client's to choose
+                                claimed.name = mk::hostile_name(&mut rng);
+                            }
                             let authed = mk::ident(&mut rng, "vouched");
                             let np = rng.below(4) as usize;
                             let authed_props = mk::props(&mut rng, np);
